@@ -42,6 +42,4 @@ proof fn axiom_vec_u64_len(v: &Vec<u64>)
     ensures v@.len() * 8 <= 0x7fff_ffff_ffff_ffff,
 {
 }
-// std: slice::contains.  ASSUMED for element types whose `==` is structural equality (used at u64 only)
-pub assume_specification<T: PartialEq> [<[T]>::contains] (s: &[T], x: &T) -> (r: bool)
-    ensures r == s@.contains(*x);
+//@include prelude/slice_contains.rs
